@@ -32,8 +32,10 @@ keyword, so that every generated document is one a correct reader must accept.
 Public API
     newick_docs(), nexus_docs(), phylip_docs(), fasta_docs(), documents(max_len=..)    valid documents
     load_corpus(dir)                                  hand-written valid documents (content=None)
-    edits(), apply_edits(text, edits, schema)         1-2 local corruptions of a text
+    edits(), apply_edits(text, edits, schema)         1-2 local corruptions of a text (characters, tokens, keywords,
+                                                      whole statements / lines deleted, duplicated or moved)
     soups(schema)                                     token soup over the format's alphabet
+    nexus_statement_soups()                           NEXUS blocks of well-formed statements with arbitrary arguments
     KEYWORDS, ALPHABET                                the token alphabets used by the two above
 """
 import json
@@ -753,6 +755,9 @@ def edits(max_edits=2):
         st.fixed_dictionaries({"op": st.just("kw"), "pos": pos, "c": st.integers(0, 200)}),
         st.fixed_dictionaries({"op": st.just("deltok"), "pos": pos}),
         st.fixed_dictionaries({"op": st.just("dupspan"), "pos": pos, "n": st.integers(1, 30)}),
+        st.fixed_dictionaries({"op": st.just("delunit"), "pos": pos}),
+        st.fixed_dictionaries({"op": st.just("dupunit"), "pos": pos}),
+        st.fixed_dictionaries({"op": st.just("moveunit"), "pos": pos, "to": pos}),
     )
     return st.lists(one, min_size=1, max_size=max_edits)
 
@@ -794,7 +799,26 @@ def apply_edits(text, edit_list, schema):
             text = text[:a] + text[b:]
         elif op == "dupspan":
             text = text[:p] + text[p:p + e["n"]] + text[p:]
+        elif op in ("delunit", "dupunit", "moveunit"):
+            # unit = statement (up to and including ';') for NEXUS / Newick, line for PHYLIP / FASTA
+            a, b = _unit_around(text, p, ";" if schema in ("nexus", "newick") else "\n")
+            unit = text[a:b]
+            if op == "delunit":
+                text = text[:a] + text[b:]
+            elif op == "dupunit":
+                text = text[:b] + unit + text[b:]
+            else:
+                rest = text[:a] + text[b:]
+                q, _ = _unit_around(rest, e["to"] % (len(rest) + 1), ";" if schema in ("nexus", "newick") else "\n")
+                text = rest[:q] + unit + rest[q:]
     return text
+
+
+def _unit_around(text, p, terminator):
+    a = text.rfind(terminator, 0, p) + 1
+    b = text.find(terminator, p)
+    b = len(text) if b < 0 else b + 1
+    return a, b
 
 
 @st.composite
@@ -819,3 +843,101 @@ def soups(draw, schema, max_tokens=40):
                        "BEGIN " + draw(st.sampled_from(["SETS", "TREES", "CHARACTERS"])) + ";\n"
             text = head + text
     return text
+
+
+# ---------------------------------------------------------------------------
+# NEXUS statement soup: syntactically plausible blocks made of well-formed statements with arbitrary arguments
+# ---------------------------------------------------------------------------
+
+_W = ["a", "b", "c", "x", "M1", "Taxa1", "'q r'", "t1", "1", "2", "c1"]
+_N = ["0", "1", "2", "3", "4", "10", "x", "-1", "2.5"]
+_FORMAT_ITEMS = ["DATATYPE=DNA", "DATATYPE=RNA", "DATATYPE=PROTEIN", "DATATYPE=STANDARD", "DATATYPE=CONTINUOUS",
+                 "DATATYPE=NUCLEOTIDE", "DATATYPE=FOO", "DATATYPE", "SYMBOLS=\"01\"", "SYMBOLS=\"0 1 2\"", "SYMBOLS=\"?\"",
+                 "SYMBOLS=\"-\"", "SYMBOLS=\"\"", "SYMBOLS=\"AB\"", "SYMBOLS=01", "SYMBOLS", "GAP=-", "GAP=0", "GAP=?",
+                 "GAP", "MISSING=?", "MISSING=0", "MISSING=-", "MISSING=N", "MATCHCHAR=.", "MATCHCHAR=A", "MATCHCHAR=0",
+                 "INTERLEAVE", "INTERLEAVE=YES", "INTERLEAVE=NO", "INTERLEAVE=", "RESPECTCASE", "TRANSPOSE",
+                 "ITEMS=MEAN", "NOLABELS", "EQUATE=\"R=(AG)\""]
+_ROW_SEQS = ["ACG", "AC", "ACGT", "A C G", "010", "01", "0{01}1", "0(01)1", "{AG}CG", "A{}G", "A(G", "A{Z}G", "...",
+             ".CG", "?-N", "1.5 2 3", "1 2", "x y z", "ACG\n", "AC\n", "0 1 0"]
+_POSITIONS = ["1", "1-2", "1-3", "2-.", "1-3\\2", "1-3\\0", "1-3/2", "all", "ALL", "0", "4", "9-10", "3-1", "1 2 3",
+              "1,2", "-", "1-", "1-x", "foo", ".", "1-3\\", "1 - 2", "", "2-2"]
+_NEWICKS = ["(a,b)", "(a,(b,c))", "(1,2)", "((1,2),3)", "(a:1,b:2):0", "a", "(a,a)", "(a,b", "a,b)", "()", "(,)",
+            "[&R] (a,b)", "[&U](a,b,c)", "(a,b)[&x=1]", "(a[&x={1,2}],b)", "('q r',b)", "(a,b);(c,d)", ""]
+
+
+@st.composite
+def _nexus_statement(draw, block):
+    w = lambda: draw(st.sampled_from(_W))
+    n = lambda: draw(st.sampled_from(_N))
+    common = ["TITLE %s" % w(), "LINK TAXA = %s" % w(), "LINK CHARACTERS = %s" % w(), "LINK %s = %s" % (w(), w()),
+              "LINK TAXA", "TITLE", "%s %s" % (w(), w()), "", "DIMENSIONS NTAX=%s" % n()]
+    if block == "TAXA":
+        specific = ["DIMENSIONS NTAX=%s" % n(), "DIMENSIONS NTAX=2", "DIMENSIONS", "TAXLABELS %s" % " ".join(
+            draw(st.lists(st.sampled_from(_W), max_size=4))), "TAXLABELS a b"]
+    elif block in ("CHARACTERS", "DATA"):
+        rows = draw(st.lists(st.tuples(st.sampled_from(_W[:6]), st.sampled_from(_ROW_SEQS)), max_size=4))
+        specific = ["DIMENSIONS NTAX=%s NCHAR=%s" % (n(), n()), "DIMENSIONS NCHAR=%s" % n(), "DIMENSIONS NTAX=2 NCHAR=3",
+                    "DIMENSIONS NTAX=2 NCHAR=3", "DIMENSIONS NEWTAXA NTAX=2 NCHAR=3",
+                    "FORMAT " + " ".join(draw(st.lists(st.sampled_from(_FORMAT_ITEMS), max_size=4))),
+                    "FORMAT " + " ".join(draw(st.lists(st.sampled_from(_FORMAT_ITEMS), max_size=4))),
+                    "MATRIX\n" + "".join("  %s %s\n" % r for r in rows),
+                    "MATRIX\n" + "".join("  %s %s\n" % r for r in rows),
+                    "MATRIX a ACG b ACG", "CHARSTATELABELS 1 x / a b", "OPTIONS GAPMODE=MISSING"]
+    elif block == "TREES":
+        pairs = draw(st.lists(st.tuples(st.sampled_from(_W), st.sampled_from(_W)), max_size=3))
+        specific = ["TRANSLATE " + ", ".join("%s %s" % p for p in pairs), "TRANSLATE 1 a, 2 b", "TRANSLATE",
+                    "TRANSLATE 1 a 2 b", "TREE %s = %s" % (w(), draw(st.sampled_from(_NEWICKS))),
+                    "TREE %s = %s" % (w(), draw(st.sampled_from(_NEWICKS))),
+                    "TREE * %s = %s" % (w(), draw(st.sampled_from(_NEWICKS))), "TREE %s %s" % (w(), w()), "TREE",
+                    "UTREE t = (a,b)", "TREE = (a,b)"]
+    else:
+        specific = ["CHARSET %s = %s" % (w(), draw(st.sampled_from(_POSITIONS))),
+                    "CHARSET %s = %s" % (w(), draw(st.sampled_from(_POSITIONS))),
+                    "CHARSET %s = %s %s" % (w(), draw(st.sampled_from(_POSITIONS)), draw(st.sampled_from(_POSITIONS))),
+                    "CHARSET %s" % w(), "CHARSET", "CHARSET c1 = 1-2", "CHARSET c1 = 1-2", "CHARSET c1 = 3",
+                    "LINK CHARACTERS = %s" % w(), "LINK CHARACTERS = M1", "TAXSET x = 1-2",
+                    "CHARPARTITION p = a: 1-2, b: 3"]
+    pool = specific * 3 + common
+    return draw(st.sampled_from(pool))
+
+
+@st.composite
+def nexus_statement_soups(draw, max_statements=3):
+    """'#NEXUS' + a plausible block sequence (TAXA, DATA/CHARACTERS, SETS, TREES) made of well-formed statements whose
+    keywords are right but whose arguments, order and repetition are arbitrary (duplicate TITLEs, FORMAT items in any
+    combination, matrix rows of any content, charsets over any positions, LINKs to anything ...).  Every statement
+    is short and most are acceptable, so that a reader usually gets as far as the odd one."""
+    stmts = lambda block, lo=0: ["  " + draw(_nexus_statement(block)) + ";\n"
+                                 for _ in range(draw(st.integers(lo, max_statements)))]
+    end = lambda: draw(st.sampled_from(["END;\n"] * 6 + ["ENDBLOCK;\n", "", "END\n"]))
+    out = "#NEXUS\n"
+    k = draw(st.integers(0, 9))
+    if k < 5:
+        out += "BEGIN TAXA;\n  DIMENSIONS NTAX=2;\n  TAXLABELS a b;\nEND;\n"
+    elif k < 7:
+        out += "BEGIN TAXA;\n" + "".join(stmts("TAXA", 1)) + end()
+    blocks = draw(st.lists(st.sampled_from(["M", "M", "S", "S", "T", "T", "X"]), min_size=1, max_size=4))
+    for b in blocks:
+        if b == "M":
+            kind = draw(st.sampled_from(["DATA", "CHARACTERS"]))
+            out += "BEGIN %s;\n" % kind
+            if draw(st.integers(0, 3)) == 0:
+                out += "  TITLE %s;\n" % draw(st.sampled_from(_W))
+            out += "".join(stmts(kind)[:1]) if draw(st.integers(0, 3)) == 0 else ""
+            out += "  DIMENSIONS NTAX=2 NCHAR=3;\n"
+            items = draw(st.lists(st.sampled_from(_FORMAT_ITEMS[:5] * 3 + _FORMAT_ITEMS), min_size=0, max_size=3))
+            out += "  FORMAT %s;\n" % " ".join(items)
+            rows = [(l, draw(st.sampled_from(_ROW_SEQS[:3] * 2 + _ROW_SEQS))) for l in
+                    draw(st.sampled_from([["a", "b"], ["a", "b"], ["a", "b"], ["a", "a"], ["a"], ["a", "b", "c"],
+                                          ["a", "b", "a", "b"]]))]
+            out += "  MATRIX\n" + "".join("    %s %s\n" % r for r in rows) + "  ;\n"
+            out += "".join(stmts(kind)[:1]) if draw(st.integers(0, 3)) == 0 else ""
+            out += end()
+        elif b == "S":
+            out += "BEGIN %s;\n" % draw(st.sampled_from(["SETS", "SETS", "ASSUMPTIONS", "CODONS"]))
+            out += "".join(stmts("SETS", 1)) + end()
+        elif b == "T":
+            out += "BEGIN TREES;\n" + "".join(stmts("TREES", 1)) + end()
+        else:
+            out += "BEGIN %s;\n" % draw(st.sampled_from(["TAXA", "PAUP", "FOO"])) + "".join(stmts("TAXA")) + end()
+    return out
